@@ -15,9 +15,19 @@ CHECKS = {
         note="Trusted: the reference model (vf/refmodel.py), SQLite standing for RDB, fakeredis standing for Redis, the in-process gRPC stub standing for the HTTP/2 transport. Depth bounds are small (see evidence).",
         design="3/C01",
     ),
+    "C03": dict(
+        engine="thx",
+        category="model_checking",
+        technique="stateless model checking of real threads under a cooperative scheduler (sys.monitoring line events + cooperative locks), iterative preemption bounding, brute-force linearizability oracle",
+        text="For every unordered pair of a 15-operation collision-forcing alphabet (plus curated 2x2 and 3x1 programs) all interleavings of 2-3 real threads sharing one storage object are enumerated up to the preemption bound, with a scheduling point at every source line of the storage-layer file under test and at every lock operation; each complete history must equal, in return values and final state, some real-time-consistent sequential execution on the same backend.",
+        note="Line-granularity preemption; locks are replaced by cooperative ones discovered by type; cached/gRPC: backend calls are atomic steps; bound 2 (mem) / 1 quick, 3 / 2 thorough.",
+        design="3/C03",
+    ),
 }
 
 ENGINES = [
+    dict(name="thx", path="vf/thx.py", serves_properties=["C03"],
+         kind_free_text="stateless exploration of thread interleavings of the real code under a controlled scheduler, preemption-bounded"),
     dict(name="seqx", path="vf/c01.py", serves_properties=["C01"],
          kind_free_text="bounded-exhaustive explicit-state search over operation sequences of the real code with reference-model / brute-force oracles"),
 ]
